@@ -272,7 +272,7 @@ func CheckC17(e *fw.Env, l *Lab) {
 		fresh := h == 0 && (e.Shard < 4 || e.Thorough())
 		pm := NewPauseModel()
 		// seed some pause state beyond what History produces
-		for k := 0; k < 6; k++ {
+		for k := 0; k < 14; k++ {
 			var m AdminMsg
 			if e.R.Intn(3) == 0 {
 				m = GenExecutorMsg(e.R, w, pm)
@@ -283,6 +283,22 @@ func CheckC17(e *fw.Env, l *Lab) {
 				if w.Handle(ctx, m.SDK()).Err == nil {
 					pm.Apply(m)
 				}
+			}
+		}
+		// the same counterparty string under several protocols, protocol-level and action pauses
+		if e.R.Intn(2) == 0 {
+			for _, cp := range []string{"1", "7", "4294967295"}[:1+e.R.Intn(3)] {
+				for _, p := range []string{"PROTOCOL_CCTP", "PROTOCOL_HYPERLANE", "PROTOCOL_INTERNAL"} {
+					if e.R.Intn(4) != 0 {
+						PauseCrossChains(w, ctx, p, []string{cp})
+					}
+				}
+			}
+			if e.R.Intn(2) == 0 {
+				PauseProtocol(w, ctx, "PROTOCOL_IBC")
+			}
+			if e.R.Intn(2) == 0 {
+				PauseAction(w, ctx, "ACTION_SWAP")
 			}
 		}
 		History(e, l, ctx, sh, steps, 45, func(step int, trail []HistOp) bool {
